@@ -44,3 +44,8 @@ pub assume_specification<T: std::clone::Clone> [<[T]>::to_vec] (s: &[T]) -> (r: 
     ensures r@.len() == s@.len(),
         forall|i: int| 0 <= i < s@.len() ==> call_ensures(T::clone, (&#[trigger] s@[i],), r@[i]);
 }
+verus! {
+pub uninterp spec fn utf8_bytes(s: Seq<char>) -> Seq<u8>;
+pub assume_specification [std::string::String::as_bytes] (s: &String) -> (r: &[u8])
+    ensures r@ == utf8_bytes(s@);
+}
